@@ -96,6 +96,8 @@ pub fn run(tier: Tier, replay_file: Option<&str>) -> i32 {
             ctx.violation("precondition:store-rejected", format!("conformant store rejected: {e}"), json!({"store": serde_json::to_value(s).unwrap()}));
             return;
         }
+        // the full store holds the action entities of the schema too (an action hierarchy exists)
+        let s = &with_actions(s, &sch);
         let full = c_entities(s);
         let core_full: &cedar_policy_core::entities::Entities = full.as_ref();
         for (ri, r) in reqs.iter().enumerate() {
